@@ -9,9 +9,10 @@
   A fid *number* can be reused, so the model speaks of fid *objects* (`*SrvFid`), numbered in the
   order `FidNew` created them.  What requests do is not modelled here (that is M3/M4); what is
   assumed of them is only the discipline M3 proves one request at a time: a request releases a
-  reference it owns (`dec o false` needs `holds ≥ 1`), the table's reference is released once
-  (`dec o true` needs `tbl`), and the request that created a fid calls `retain` before it
-  releases its own reference (`retain` needs `holds ≥ 1`).
+  reference it owns (`dec` needs `holds ≥ 1`; `release` — Tclunk/Tremove's post-handler and
+  Conn.close — hands the table's reference to the caller, who then releases it like any other),
+  and the request that created a fid calls `retain` before it releases its own reference
+  (`retain` needs `holds ≥ 1`).
 -/
 namespace G9.FidLife
 
@@ -24,9 +25,9 @@ structure FObj where
   nd : Nat := 0             -- ghost: calls of the file server's FidDestroy made for it
   calls : Nat := 0          -- destroy() past its flag region with done = false, FidDestroy not yet called
   holds : Nat := 1          -- ghost: references owned by requests
-  tbl : Bool := false       -- ghost: the table's own reference exists
+  tbl : Bool := false       -- fid.kept: the table's own reference exists
   dyA : Nat := 0            -- DecRef past its first region with n ≤ 0, before the pool deletion
-  dyB : Nat := 0            -- destroy() called (by DecRef or Conn.close), flag region not yet run
+  dyB : Nat := 0            -- destroy() called by DecRef, flag region not yet run
   deriving Repr
 
 structure FS where
@@ -55,13 +56,14 @@ inductive FEv where
   | get (o : Nat)              -- FidGet: the test of `pending` and the increment       [@fid.get]
   | retain (o : Nat)           -- retain: `closed`, increment, `pending = false`        [@fid.retain]
   | inc (o : Nat)              -- IncRef (walk in place)                                [@fid.inc]
-  | dec (o : Nat) (t : Bool)   -- DecRef, first region; `t`: the table's reference      [@fid.dec]
+  | release (o : Nat)          -- release(): take the table's reference, if it still has one [@fid.release]
+  | dec (o : Nat)              -- DecRef, first region                                   [@fid.dec]
   | unpool (o : Nat)           -- DecRef, second region: delete the table entry if it is this fid [@fid.unpool]
   | dstr (o : Nat)             -- destroy(): test-and-set of `destroyed`                [@fid.destroy]
   | call (o : Nat)             -- destroy(): the file server's FidDestroy               [fid.destroy.call]
   | closeDone                  -- Conn.close: close(conn.done)                          [close.done]
   | snapshot (l : List Nat)    -- Conn.close: copy of the table under the connection lock [@close.snapshot]
-  | visit                      -- Conn.close: one fid of the copy: test of `pending`    [@close.visit]
+  | visit                      -- Conn.close: one fid of the copy: release() unless pending [@close.visit]
   deriving Repr
 
 def setO (s : FS) (o : Nat) (v : FObj) : FS := { s with obj := updO s.obj o v }
@@ -76,7 +78,7 @@ def FS.step (s : FS) : FEv → Option FS
   | .get o =>
     if o < s.n then
       let x := s.obj o
-      if x.pending then some s
+      if x.pending ∨ x.ref ≤ 0 then some s           -- being created, or already dead: FidGet returns nil
       else some (setO s o { x with ref := x.ref + 1, holds := x.holds + 1 })
     else none
   | .retain o =>
@@ -88,11 +90,15 @@ def FS.step (s : FS) : FEv → Option FS
   | .inc o =>
     let x := s.obj o
     if o < s.n ∧ 1 ≤ x.holds then some (setO s o { x with ref := x.ref + 1, holds := x.holds + 1 }) else none
-  | .dec o t =>
+  | .release o =>
     let x := s.obj o
-    if o < s.n ∧ (if t then x.tbl = true else 1 ≤ x.holds) then
-      let x1 : FObj := if t then { x with ref := x.ref - 1, tbl := false }
-                       else { x with ref := x.ref - 1, holds := x.holds - 1 }
+    if o < s.n then
+      if x.tbl then some (setO s o { x with tbl := false, holds := x.holds + 1 }) else some s
+    else none
+  | .dec o =>
+    let x := s.obj o
+    if o < s.n ∧ 1 ≤ x.holds then
+      let x1 : FObj := { x with ref := x.ref - 1, holds := x.holds - 1 }
       some (setO s o (if x1.ref ≤ 0 then { x1 with dyA := x1.dyA + 1 } else x1))
     else none
   | .unpool o =>
@@ -119,8 +125,9 @@ def FS.step (s : FS) : FEv → Option FS
     match s.snap with
     | some (o :: rest) =>
       let x := s.obj o
-      if x.pending then some { s with snap := some rest }
-      else some { (setO s o { x with dyB := x.dyB + 1 }) with snap := some rest }
+      if x.pending = false ∧ x.tbl = true then
+        some { (setO s o { x with tbl := false, holds := x.holds + 1 }) with snap := some rest }
+      else some { s with snap := some rest }
     | _ => none
 
 def FS.run (s : FS) : List FEv → Option FS
